@@ -213,7 +213,7 @@ func (fp *fakeProc) doFault() {
 	}
 	fp.faultDone = true
 	switch fp.script.Fault {
-	case "cut", "dup", "unknown", "oversize", "garbage":
+	case "cut", "dup", "unknown", "oversize", "garbage", "garbage-high", "oversize-max":
 		fp.faultBytes = true
 	}
 	var exitWith error
@@ -241,6 +241,11 @@ func (fp *fakeProc) doFault() {
 		fp.emitLocked([]byte{0x7f, 0, 0, 0})
 	case "garbage":
 		fp.emitLocked([]byte{0, 0, 0, 2, 0xff, 0xff})
+	case "garbage-high":
+		// e.g. a log line that starts with a UTF-8 byte-order mark: the "length" has its top bit set
+		fp.emitLocked([]byte{0xef, 0xbb, 0xbf, 'p', 'a', 'n', 'i', 'c'})
+	case "oversize-max":
+		fp.emitLocked([]byte{0xff, 0xff, 0xff, 0xff})
 	case "stall":
 		fp.stalled = true
 	default:
